@@ -318,6 +318,14 @@ func (w *World) Boot() *Incarnation {
 	inc := &Incarnation{N: n, Actor: fmt.Sprintf("ctrl#%d", n), BootAt: w.Clk.Now()}
 	inc.Ctx = NewSimContext(w.API, inc.Actor, w.Cfg)
 	inc.Ctx.CS.Gate = w.gate
+	inc.Ctx.CS.OnLiveRead = func(kind Kind, ns, name string, obj runtime.Object) {
+		// what a reconcile learns from the apiserver replaces what (little) its cache told it about that object
+		if t := w.current; t != nil {
+			w.traceMu.Lock()
+			t.View[string(kind)+"/"+ns+"/"+name] = viewEntry{Obj: obj, Found: true}
+			w.traceMu.Unlock()
+		}
+	}
 	inc.Ctx.CS.ReadGate = func(kind Kind, ns, name string) error {
 		if rf, ok := w.Opt.Faults.(interface {
 			DecideRead(w *World, kind Kind, name string) error
